@@ -141,6 +141,14 @@ def check(ctx):
         seq = ad.sequence
         if reads is None:
             reads = reads_for(rng, spec, seq, 10)
+        # the adapter as a worker process gets it under the 'spawn' start method: through pickle (every fifth adapter)
+        pickled = None
+        if len(mt_meta) % 5 == 0:
+            try:
+                import pickle
+                pickled = pickle.loads(pickle.dumps(ad))
+            except Exception as e:
+                ctx.violation("adapter cannot be pickled: %s" % type(e).__name__, {"adapter": spec.to_json(), "why": "%s: %s" % (type(e).__name__, e)})
         kf = getattr(ad.kmer_finder, "kmer_finder", ad.kmer_finder)  # unwrap ShortReadKmerFinder
         has_finder = hasattr(kf, "positions_and_kmers")
         for r in reads:
@@ -155,6 +163,13 @@ def check(ctx):
                 ctx.violation("prefilter changes the result: " + cls,
                               {"adapter": spec.to_json(), "read": r, "with_prefilter": U.match_tuple(real), "without": U.match_tuple(nofilter),
                                "reproduce": "cd /verif && ./check replay <this file>"})
+            if pickled is not None and U.match_tuple(pickled.match_to(r)) != U.match_tuple(nofilter):
+                ctx.violation("prefilter of a pickled adapter changes the result: %s" % spec.typ,
+                              {"adapter": spec.to_json(), "read": r, "with_prefilter_after_pickle": U.match_tuple(pickled.match_to(r)), "without": U.match_tuple(nofilter),
+                               "pickled": True})
+                dist["pickled adapters"] = dist.get("pickled adapters", 0)
+            if pickled is not None:
+                dist["pickled adapters"] = dist.get("pickled adapters", 0) + 1
             mt_impl.append(U.match_tuple(real))
             mt_lines.append(U.model_line_matchto(ad, spec, r).replace("matchto ", "matchtopf ", 1))
             mt_meta.append((spec, r))
